@@ -41,6 +41,16 @@ def keyword_docs():
     for kw, el in sorted(absdoc.SPEECH_CONTAINERS.items()):
         at = {'name': 'debateSection'} if el == 'debateSection' else None
         out.append(('debate', kw + ' 1 - Head\n  text\n', doc('debate', E('debateBody', None, E(el, at, E('num', None, '1'), E('heading', None, 'Head'), E('p', None, 'text'))))))
+    # ... and without content: the bare keyword, with num and heading, with only a subheading - the element and nothing added to it
+    for kw, el in sorted(absdoc.SPEECH_CONTAINERS.items()):
+        at = {'name': 'debateSection'} if el == 'debateSection' else None
+        out.append(('debate', kw + '\n', doc('debate', E('debateBody', None, E(el, at)))))
+        out.append(('debate', kw + ' 1 - Head\n', doc('debate', E('debateBody', None, E(el, at, E('num', None, '1'), E('heading', None, 'Head'))))))
+        out.append(('debate', kw + ' 2\n  SUBHEADING sub\n' + kw + '\n  text\n',
+                    doc('debate', E('debateBody', None, E(el, at, E('num', None, '2'), E('subheading', None, 'sub')), E(el, at, E('p', None, 'text'))))))
+    for kw, el in sorted(absdoc.HIER.items()):
+        out.append(('act', kw + ' 1 - Head\n' + kw + ' 2\n  SUBHEADING sub\n',
+                    doc('act', E('body', None, E(el, None, E('num', None, '1'), E('heading', None, 'Head')), E(el, None, E('num', None, '2'), E('subheading', None, 'sub'))))))
     for kw, el in sorted(absdoc.SPEECH_GROUPS.items()):
         out.append(('debate', 'DEBATESECTION\n  ' + kw + ' 2\n    FROM the speaker\n    text\n',
                     doc('debate', E('debateBody', None, E('debateSection', {'name': 'debateSection'},
